@@ -316,7 +316,13 @@ impl<'a> Sim<'a> {
                 sk = Some("".into());
                 let mut c = BTreeMap::new();
                 if v > 10 || self.t.chance(2, 3) {
-                    c.insert("creator".to_string(), J::Str(actor.clone()));
+                    // (from v11 the field means nothing: a stale or malformed one changes nothing)
+                    let cr = match self.t.below(6) {
+                        0 => J::Str(target.clone()),
+                        1 if v > 10 => J::Int(5),
+                        _ => J::Str(actor.clone()),
+                    };
+                    c.insert("creator".to_string(), cr);
                 }
                 c.insert("room_version".to_string(), J::Str(v.to_string()));
                 content = J::Obj(c);
@@ -351,7 +357,23 @@ impl<'a> Sim<'a> {
                 let via = if joined.is_empty() { target.clone() } else { self.t.pick(&joined).clone() };
                 content.set("join_authorised_via_users_server", J::Str(via));
             }
-            0 => (sk, content) = (Some(actor.clone()), gen::member_content(self.t, "join")),
+            0 => {
+                (sk, content) = (Some(actor.clone()), gen::member_content(self.t, "join"));
+                // the creator's first join is recognised by its prev_events: exactly the create event
+                if self.t.chance(1, 3) {
+                    prev_override = Some(match self.t.below(5) {
+                        0 => vec![],
+                        1 => vec![create_id.to_string()],
+                        2 => vec![create_id.to_string(), create_id.to_string()],
+                        3 => {
+                            let mut p = vec![create_id.to_string()];
+                            p.extend(tip.iter().cloned());
+                            p
+                        }
+                        _ => tip.to_vec(),
+                    });
+                }
+            }
             1 => (sk, content) = (Some(actor.clone()), gen::member_content(self.t, "leave")),
             2 => (sk, content) = (Some(target.clone()), gen::member_content(self.t, "invite")),
             3 => (sk, content) = (Some(target.clone()), gen::member_content(self.t, "leave")),
@@ -486,7 +508,7 @@ impl<'a> Sim<'a> {
             }
             let target = self.t.pick(&others).clone();
             let (Ok(actor_id), Ok(target_id)) = (<&ruma_common::UserId>::try_from(actor.as_str()), <&ruma_common::UserId>::try_from(target.as_str())) else { return };
-            let action = self.t.below(8);
+            let action = self.t.below(9);
             let target_membership = match action {
                 0 => *self.t.pick(&["join", "invite", "leave", "ban", "knock"]), // ban
                 1 => *self.t.pick(&["join", "invite", "leave", "knock"]),        // kick
@@ -517,6 +539,41 @@ impl<'a> Sim<'a> {
                     // (a power-levels event that changes nothing passes the change rules, so its verdict is the level check)
                     let c = if ty == "m.room.join_rules" { o(vec![("join_rule", J::s("public"))]) } else if ty == "m.room.power_levels" { plj.clone() } else { o(vec![("x", J::Int(1))]) };
                     (pl.user_can_send_state(actor_id, StateEventType::from(ty)), format!("user_can_send_state({ty})"), mk(ty, Some("".into()), c, self))
+                }
+                8 => {
+                    // changing a user's level: the counterpart is the power-levels event that differs
+                    // from the current one in that user's entry only - lowered by one where there is an
+                    // entry (or for oneself), added at the acting user's own level where there is none
+                    let num = |j: Option<&J>| -> Option<i64> {
+                        match j {
+                            Some(J::Int(i)) => Some(*i),
+                            Some(J::Str(st)) => st.trim().parse().ok(),
+                            _ => None,
+                        }
+                    };
+                    let users_j = plj.get("users").cloned().unwrap_or_else(J::obj);
+                    if users_j.as_obj().is_none() {
+                        continue;
+                    }
+                    let actor_level = num(users_j.get(&actor)).or_else(|| num(plj.get("users_default"))).unwrap_or(0);
+                    let cur_entry = num(users_j.get(&target));
+                    let who = if self.t.chance(1, 5) { actor.clone() } else { target.clone() };
+                    let new_val = if who == actor { actor_level - 1 } else { cur_entry.map(|c| c - 1).unwrap_or(actor_level) };
+                    if new_val.abs() > 1_000_000 {
+                        continue;
+                    }
+                    let mut u2 = users_j.clone();
+                    u2.set(&who, J::Int(new_val));
+                    let mut c2 = plj.clone();
+                    c2.set("users", u2);
+                    let Ok(who_id) = <&ruma_common::UserId>::try_from(who.as_str()) else { return };
+                    let direct = pl.user_can_change_user_power_level(actor_id, who_id);
+                    let via = pl.user_can_do_to_user(actor_id, who_id, ruma_events::room::power_levels::PowerLevelUserAction::ChangePowerLevel);
+                    if direct != via {
+                        self.violate("C20", "plh/user_can_do_to_user.dispatch".into(), json!({"action":"ChangePowerLevel","direct":direct,"via_dispatch":via}));
+                        return;
+                    }
+                    (direct, "user_can_change_user_power_level".into(), mk("m.room.power_levels", Some("".into()), c2, self))
                 }
                 6 => {
                     // notifications: the push condition is the counterpart
